@@ -152,6 +152,7 @@ def build(ctx):
                        "R2 wide range: header values fully symbolic over their type, only assumption: the true size is < 2^48 (fits in size_t); unchecked build, only the header is read",
                        "trait formulas: all argument values whose true size is < 2^62"]
     plan = [("vs_msg_le.xml", "17", "checked")] if ctx.quick else [(x, s, "checked") for s in ("11", "14", "17", "20") for x in ("vs_msg_le.xml", "vs_msg_be.xml")]
+    plan = hgen.plan_env(plan)
     for (xml, std, mode) in plan:
         sch, inc = hgen.gen_headers(ctx, xml)
         for msg in sch.messages:
